@@ -180,8 +180,8 @@ XCM = [0.0, 0.03, -0.02, 0.0, 0.01, 0.025]
 
 class CMModel:
     name = "center_manifold"
-    OPS = ["D3", "D4", "H3", "H4", "COMPUTE", "TOSYN"]
-    MUTATORS = {"D3", "D4"}
+    OPS = ["D3", "D4", "H3", "H4", "COMPUTE", "TOSYN", "SAVELOAD"]
+    MUTATORS = {"D3", "D4", "SAVELOAD"}
 
     def fresh(self, logical):
         system, L1 = _shared()
@@ -209,6 +209,10 @@ class CMModel:
             return obj, r if isinstance(r, Exception) else (int(r.degree), self._hval(r)), lg
         if op == "TOSYN":
             return obj, call(lambda: np.asarray(obj.to_synodic(np.array(PCM)))), lg
+        if op == "SAVELOAD":
+            path = os.path.join(_L["tmp"], "cm_%d.pkl" % os.getpid())
+            obj.save(path)
+            return type(obj).load(path), None, lg
         raise KeyError(op)
 
     def observers(self, obj):
@@ -326,7 +330,54 @@ class SystemModel:
         return out
 
 
-MODELS = {m.name: m for m in (OrbitModel(), CMModel(), HaloModel(), SystemModel())}
+class ManifoldModel:
+    """Manifold.compute with argument sets that differ in one field: the result must belong to the arguments of the *last* call"""
+    name = "manifold"
+    OPS = ["C_coarse_small", "C_coarse_big", "C_fine_small", "R_traj"]
+    MUTATORS = {"C_coarse_small", "C_coarse_big", "C_fine_small"}
+    ARGS = {"C_coarse_small": dict(step=0.5, displacement=1e-6), "C_coarse_big": dict(step=0.5, displacement=1e-4), "C_fine_small": dict(step=0.25, displacement=1e-6)}
+
+    def _orbit(self):
+        if "man_orbit" not in _L:
+            system, L1 = _shared()
+            orb = _L["HaloOrbit"](L1, amplitude_z=0.2, zenith="southern")
+            orb.correct()
+            orb.propagate(steps=500)
+            _L["man_orbit"] = orb
+        return _L["man_orbit"]
+
+    def fresh(self, logical):
+        from hiten.system.manifold import Manifold
+        man = Manifold(self._orbit(), stable=False, direction="positive")
+        if logical["args"] is not None:
+            man.compute(integration_fraction=0.05, dt=1e-2, show_progress=False, **self.ARGS[logical["args"]])
+        return man
+
+    def initial(self):
+        return {"args": None}
+
+    def _summ(self, man):
+        tr = man.trajectories
+        if not tr:
+            return ("none",)
+        seeds = np.array([np.asarray(t.states)[0] for t in tr])
+        return (len(tr), seeds[0], seeds[-1])
+
+    def apply(self, obj, op, logical):
+        lg = dict(logical)
+        if op.startswith("C_"):
+            r = call(lambda: obj.compute(integration_fraction=0.05, dt=1e-2, show_progress=False, **self.ARGS[op]))
+            lg["args"] = op
+            return obj, r if isinstance(r, Exception) else self._summ(obj), lg
+        if op == "R_traj":
+            return obj, call(lambda: self._summ(obj)), lg
+        raise KeyError(op)
+
+    def observers(self, obj):
+        return {"trajectories": call(lambda: self._summ(obj))}
+
+
+MODELS = {m.name: m for m in (OrbitModel(), CMModel(), HaloModel(), SystemModel(), ManifoldModel())}
 
 
 # ------------------------------------------------------------------ explorer
@@ -413,9 +464,9 @@ KINDS = {"histories": k_histories, "history": k_history}
 
 def cases(tier, seed):
     out = []
-    depths = {"generic_orbit": 3, "center_manifold": 3, "halo_correct": 3, "system_point": 2}
+    depths = {"generic_orbit": 3, "center_manifold": 3, "halo_correct": 3, "system_point": 2, "manifold": 2}
     if tier != "quick":
-        depths = {"generic_orbit": 4, "center_manifold": 4, "halo_correct": 3, "system_point": 3}
+        depths = {"generic_orbit": 4, "center_manifold": 4, "halo_correct": 4, "system_point": 3, "manifold": 3}
     for name, m in MODELS.items():
         for op in m.OPS:
             out.append(("histories", {"model": name, "depth": depths[name], "first": op}))
